@@ -11,10 +11,10 @@
 (*  - Verdicts: the monitor is TOTAL - it never stops at a violated        *)
 (*    property; it prints one VERDICT line and goes on, so the rest of the *)
 (*    trace is still examined.                                             *)
+(*  - Languages are compared SYMBOLICALLY (Lang!EqD over the atoms of the  *)
+(*    group), i.e. over all 1 112 064 scalar values, without enumeration.  *)
 (***************************************************************************)
 EXTENDS Algo, TLC, Json, IOUtils
-
-CONSTANT LIMIT      \* largest language (number of words) handled by explicit sets
 
 Rec == ndJsonDeserialize(IOEnv.TRACE)
 
@@ -23,7 +23,7 @@ VARIABLES l,        \* next event to consume
           G,        \* current group record
           tcs,      \* original test cases of the group (sequences of cells)
           run,      \* facts about the current run
-          memo,     \* finished runs of the group: [cfg, lang, sid, cps, judged]
+          memo,     \* finished runs of the group
           cnt       \* counters (evaluations per check kind)
 vars == <<l, pc, G, tcs, run, memo, cnt>>
 
@@ -44,29 +44,6 @@ Emit(props, kind, extra) == EmitX(props, kind, extra, "")
 (* Judge: evaluate a check; on failure print a verdict. Always TRUE. *)
 Judge(ok, props, kind, extra) == IF ok THEN TRUE ELSE Emit(props, kind, extra)
 
-(***************************************************************************)
-(* Named deviations (DESIGN.md 3.4).  A language check that fails is       *)
-(* EXPLAINED when the recorded language is exactly what the as-built       *)
-(* transcription (Algo.tla, AsBuilt) predicts for a deviation that was     *)
-(* observed at its call site earlier in the same run:                      *)
-(*   eps-dropped  the minimised automaton lost exactly the empty word      *)
-(*   widen        the trie is the one trie insertion with widening builds  *)
-(* Anything else is unexplained and reported as a new violation.           *)
-(***************************************************************************)
-NoEps(L) == L \ {<<>>}
-ExplBy(L, X, eps, widened, asbuilt) ==
-  IF L = X THEN "ok"
-  ELSE IF eps /\ NoEps(L) = NoEps(X) THEN "eps-dropped"
-  ELSE IF widened /\ L = asbuilt THEN "widen"
-  ELSE IF widened /\ eps /\ NoEps(L) = NoEps(asbuilt) THEN "widen+eps-dropped"
-  ELSE "no"
-Expl(L, X) == ExplBy(L, X, run.eps, run.widened, run.asbuilt)
-JudgeX(why, props, kind) ==
-  IF why = "ok" THEN TRUE ELSE EmitX(props, kind, "", IF why = "no" THEN "" ELSE why)
-(* explanation for per-test-case checks: only the empty test case may fail, and only after eps-dropped *)
-ExplTcs(bad) == IF bad = {} THEN "ok"
-                ELSE IF run.eps /\ \A i \in bad : tcs[i] = <<>> THEN "eps-dropped" ELSE "no"
-
 Bump(kinds) == [k \in DOMAIN cnt \cup kinds |->
                   (IF k \in DOMAIN cnt THEN cnt[k] ELSE 0) + (IF k \in kinds THEN 1 ELSE 0)]
 
@@ -77,6 +54,32 @@ ExactProps(c) == (IF c.rep THEN {"C05"} ELSE {})
                  \cup (IF ~c.rep /\ ~AnyClass(c) /\ ~c.icase THEN {"C02"} ELSE {})
 
 FirstBad(ok, stage) == IF run.firstbad = "" /\ ~ok THEN stage ELSE run.firstbad
+
+(***************************************************************************)
+(* Named deviations (DESIGN.md 3.4).  A language check that fails is       *)
+(* EXPLAINED when the recorded language is exactly what the as-built       *)
+(* transcription (Algo.tla, AsBuilt) predicts for a deviation that was     *)
+(* observed at its call site earlier in the same run:                      *)
+(*   eps-dropped  the minimised automaton lost exactly the empty word      *)
+(*   widen        the trie is the one trie insertion with widening builds  *)
+(* Anything else is unexplained and reported as a new violation.           *)
+(***************************************************************************)
+Same(D1, D2)    == EqD(D1, D2, G.n, FALSE)
+SameNoEps(D1, D2) == EqD(D1, D2, G.n, TRUE)
+ExplBy(L, X, eps, widened, asbuilt) ==
+  IF Same(L, X) THEN "ok"
+  ELSE IF eps /\ SameNoEps(L, X) THEN "eps-dropped"
+  ELSE IF widened /\ Same(L, asbuilt) THEN "widen"
+  ELSE IF widened /\ eps /\ SameNoEps(L, asbuilt) THEN "widen+eps-dropped"
+  ELSE "no"
+Expl(L, X) == ExplBy(L, X, run.eps, run.widened, run.asbuilt)
+JudgeX(why, props, kind) ==
+  IF why = "ok" THEN TRUE ELSE EmitX(props, kind, "", IF why = "no" THEN "" ELSE why)
+(* per-test-case checks: only the empty test case may fail, and only after eps-dropped *)
+ExplTcs(bad) == IF bad = {} THEN "ok"
+                ELSE IF run.eps /\ \A i \in bad : tcs[i] = <<>> THEN "eps-dropped" ELSE "no"
+
+Nothing == DescAst([t |-> "alt", xs |-> <<>>])     \* the empty language
 
 (***************************************************************************)
 (* initial state and group/run framing                                     *)
@@ -97,14 +100,13 @@ TEnd == /\ IsEvent("end") /\ pc \in {"tcs", "done"}
         /\ pc' = "idle" /\ l' = l + 1 /\ UNCHANGED <<G, tcs, run, memo, cnt>>
 
 TRun == /\ IsEvent("run") /\ pc \in {"tcs", "done"} /\ tcs # <<>>
-        /\ LET c == Ev.cfg
-               size == SumCard(tcs, c, G)
-           IN run' = [r |-> Ev.r, cfg |-> c, firstbad |-> "", widen |-> 0,
-                      judged |-> (size <= LIMIT /\ ~Ev.unstable), size |-> size,
-                      pre |-> <<>>, cl |-> <<>>, cl1 |-> <<>>, glang |-> {}, elang |-> {},
-                      minimized |-> TRUE, fallback |-> FALSE, sc1 |-> "none", exprs |-> 0,
-                      out |-> [outcome |-> "none"], olang |-> {}, okhir |-> FALSE,
-                      eps |-> FALSE, widened |-> FALSE, asbuilt |-> {}]
+        /\ run' = [r |-> Ev.r, cfg |-> Ev.cfg, firstbad |-> "", widen |-> 0,
+                   judged |-> ~Ev.unstable,
+                   pre |-> <<>>, cl |-> <<>>, glang |-> Nothing, elang |-> Nothing,
+                   fallback |-> FALSE, exprs |-> 0,
+                   out |-> [outcome |-> "none"], olang |-> Nothing, okhir |-> FALSE,
+                   eps |-> FALSE, widened |-> FALSE, asbuilt |-> Nothing]
+        /\ (IF "MONDEBUG" \in DOMAIN IOEnv THEN PrintT(<<"RUN", l>>) ELSE TRUE)
         /\ pc' = "run" /\ l' = l + 1 /\ cnt' = Bump({"runs"})
         /\ UNCHANGED <<G, tcs, memo>>
 
@@ -114,7 +116,7 @@ TRun == /\ IsEvent("run") /\ pc \in {"tcs", "done"} /\ tcs # <<>>
 TPre == /\ IsEvent("pre") /\ pc = "run" /\ Ev.r = run.r
         /\ LET c == run.cfg
                ok1 == PreOk(tcs, Ev.list, c)
-               ok2 == ~run.judged \/ E(Ev.list, c, G) = E(tcs, c, G)
+               ok2 == ~run.judged \/ SameLang(ExpAst(Ev.list, c, G), ExpAst(tcs, c, G), G)
                ok3 == NoDup(Ev.list) /\ Ev.sorted
            IN /\ Judge(ok1, IF c.icase THEN {"C04", "C01"} ELSE {"C01", "C02"}, "pre-set", "")
               /\ Judge(ok2, ExactProps(c), "pre-lang", "")
@@ -141,17 +143,15 @@ TCl1 == /\ IsEvent("cl") /\ pc = "cl0" /\ Ev.phase = 1 /\ Ev.r = run.r
                      \/ /\ Len(Ev.list) = Len(run.pre)
                         /\ \A i \in DOMAIN Ev.list : ClassConvOk(Ev.list[i], run.pre[i], c, G)
            IN /\ Judge(ok, {"C03", "C09", "C16"}, "classconv", "")
-              /\ run' = [run EXCEPT !.cl = Ev.list, !.cl1 = Ev.list,
-                                    !.firstbad = FirstBad(ok, "classconv")]
+              /\ run' = [run EXCEPT !.cl = Ev.list, !.firstbad = FirstBad(ok, "classconv")]
         /\ pc' = "cl1" /\ l' = l + 1
         /\ cnt' = Bump(IF AnyClass(run.cfg) /\ run.judged THEN {"classconv"} ELSE {})
         /\ UNCHANGED <<G, tcs, memo>>
 
 TCl2 == /\ IsEvent("cl") /\ pc = "cl1" /\ Ev.phase = 2 /\ Ev.r = run.r
         /\ LET c == run.cfg
-               ok == \/ ~run.judged
-                     \/ /\ Len(Ev.list) = Len(run.cl)
-                        /\ \A i \in DOMAIN Ev.list : RepConvOk(Ev.list[i], run.cl[i])
+               ok == /\ Len(Ev.list) = Len(run.cl)
+                     /\ \A i \in DOMAIN Ev.list : RepConvOk(Ev.list[i], run.cl[i], G)
                okT == \A i \in DOMAIN Ev.list : ClusterThresholdsOk(Ev.list[i], c)
            IN /\ Judge(ok, {"C05", "C16"}, "repconv", "")
               /\ Judge(okT, {"C13"}, "cluster-thresholds", "")
@@ -164,33 +164,35 @@ TCl2 == /\ IsEvent("cl") /\ pc = "cl1" /\ Ev.phase = 2 /\ Ev.r = run.r
 (* S6-S8                                                                   *)
 (***************************************************************************)
 TTrie == /\ IsEvent("trie") /\ pc \in {"cl2", "sc1"} /\ Ev.r = run.r
-         /\ LET lang == IF run.judged THEN GraphLang(Ev) ELSE {}
-                cl == IF run.judged THEN ClustersLang(run.cl) ELSE {}
-                okA == ~run.judged \/ Acyclic(Ev)
-                asb == IF run.judged /\ lang # cl /\ Ev.widen > 0 THEN TrieLang(run.cl, AsBuilt) ELSE {}
-                why == IF lang = cl THEN "ok"
-                       ELSE IF Ev.widen > 0 /\ lang = asb THEN "widen" ELSE "no"
+         /\ LET lang == DescGraph(Ev)
+                cl == DescAst(ClustersAst(run.cl))
+                okA == Acyclic(Ev)
+                eq == okA /\ Same(lang, cl)
+                asb == IF ~eq /\ Ev.widen > 0
+                       THEN DescGraph(AsGraph(BuildTrie(run.cl, AsBuilt), 0)) ELSE Nothing
+                why == IF eq THEN "ok"
+                       ELSE IF okA /\ Ev.widen > 0 /\ Same(lang, asb) THEN "widen" ELSE "no"
             IN /\ Judge(okA, {"C16"}, "trie-cyclic", "")
                /\ JudgeX(why, {"C16"} \cup (IF run.cfg.rep THEN {"C05"} ELSE {}), "trie")
                /\ run' = [run EXCEPT !.glang = lang, !.widen = Ev.widen,
-                                     !.minimized = (pc = "cl2"),
                                      !.widened = (why = "widen"), !.asbuilt = asb,
-                                     !.firstbad = FirstBad(why = "ok" /\ okA, "trie")]
+                                     !.firstbad = FirstBad(why = "ok", "trie")]
          /\ pc' = IF pc = "cl2" THEN "trie" ELSE "trie2"
          /\ l' = l + 1 /\ cnt' = Bump({"trie"} \cup (IF Ev.widen > 0 THEN {"trie-widened"} ELSE {}))
          /\ UNCHANGED <<G, tcs, memo>>
 
 TMin == /\ IsEvent("min") /\ pc = "trie" /\ Ev.r = run.r
-        /\ LET lang == IF run.judged THEN GraphLang(Ev) ELSE {}
-               okA == ~run.judged \/ Acyclic(Ev)
-               why == IF lang = run.glang THEN "ok"
-                      ELSE IF <<>> \in run.glang /\ lang = NoEps(run.glang) THEN "eps-dropped" ELSE "no"
+        /\ LET lang == DescGraph(Ev)
+               okA == Acyclic(Ev)
+               why == IF okA /\ Same(lang, run.glang) THEN "ok"
+                      ELSE IF okA /\ HasEps(run.glang) /\ ~HasEps(lang) /\ SameNoEps(lang, run.glang)
+                           THEN "eps-dropped" ELSE "no"
                okS == run.cfg.rep \/ MinShapeOk(Ev)
            IN /\ Judge(okA, {"C16"}, "min-cyclic", "")
               /\ JudgeX(why, {"C16"}, "min-lang")
               /\ Judge(okS, {"C16"}, "min-shape", "")
               /\ run' = [run EXCEPT !.glang = lang, !.eps = (why = "eps-dropped"),
-                                    !.firstbad = FirstBad(why = "ok" /\ okA, "min")]
+                                    !.firstbad = FirstBad(why = "ok", "min")]
         /\ pc' = "min" /\ l' = l + 1
         /\ cnt' = Bump({"min"} \cup (IF run.cfg.rep THEN {} ELSE {"min-shape"}))
         /\ UNCHANGED <<G, tcs, memo>>
@@ -199,9 +201,8 @@ TMin == /\ IsEvent("min") /\ pc = "trie" /\ Ev.r = run.r
 (* S9, S10                                                                 *)
 (***************************************************************************)
 TExpr == /\ IsEvent("expr") /\ pc \in {"min", "trie2"} /\ Ev.r = run.r
-         /\ LET lang == IF run.judged THEN LangOf(Ev.ast) ELSE {}
-                why == IF ~run.judged THEN "ok"
-                       ELSE IF Unbounded(Ev.ast) THEN "no" ELSE Expl(lang, run.glang)
+         /\ LET lang == DescAst(Ev.ast)
+                why == IF ~TrimAst(Ev.ast) THEN "no" ELSE Expl(lang, run.glang)
             IN /\ JudgeX(why, {"C16"}, "expr")
                /\ run' = [run EXCEPT !.elang = lang, !.exprs = @ + 1,
                                      !.firstbad = FirstBad(why = "ok", "expr")]
@@ -215,10 +216,9 @@ TSelfCheck == /\ IsEvent("selfcheck") /\ Ev.r = run.r
               /\ \/ (pc = "expr" /\ Ev.stage = 1)
                  \/ (pc = "expr2" /\ Ev.stage = 2)
               /\ ~Ev.ok
-              /\ run' = [run EXCEPT !.sc1 = "failed"]
               /\ pc' = IF pc = "expr" THEN "sc1" ELSE "sc2"
               /\ l' = l + 1 /\ cnt' = Bump({"selfcheck-failed"})
-              /\ UNCHANGED <<G, tcs, memo>>
+              /\ UNCHANGED <<G, tcs, memo, run>>
 
 TFallback == /\ IsEvent("fallback") /\ pc = "sc2" /\ Ev.r = run.r
              /\ run' = [run EXCEPT !.fallback = TRUE]
@@ -226,9 +226,8 @@ TFallback == /\ IsEvent("fallback") /\ pc = "sc2" /\ Ev.r = run.r
              /\ UNCHANGED <<G, tcs, memo>>
 
 TFinal == /\ IsEvent("final") /\ pc \in {"expr", "expr2", "fallback"} /\ Ev.r = run.r
-          /\ LET lang == IF run.judged THEN LangOf(Ev.ast) ELSE {}
-                 why == IF ~run.judged THEN "ok"
-                        ELSE IF Unbounded(Ev.ast) THEN "no" ELSE Expl(lang, ClustersLang(run.cl))
+          /\ LET lang == DescAst(Ev.ast)
+                 why == IF ~TrimAst(Ev.ast) THEN "no" ELSE Expl(lang, DescAst(ClustersAst(run.cl)))
              IN /\ JudgeX(why, {"C16"}, "final")
                 /\ run' = [run EXCEPT !.elang = lang, !.firstbad = FirstBad(why = "ok", "final")]
           /\ pc' = "final" /\ l' = l + 1 /\ cnt' = Bump({"final"})
@@ -245,17 +244,15 @@ MemoOf(c) == LET k == CfgKey(c)
 
 EngineBound(c) == ~c.color /\ ~c.surr
 
-Body(hir) == hir    \* bol/eol denote the empty word in LangOf
-
 (* differential properties: compare with the finished run whose settings differ in one option *)
 TwinLang(c, opt, base, props, lang) ==
   LET m == MemoOf(base) IN
-  IF c = base \/ ~m.found \/ ~m.m.judged \/ ~m.m.haslang THEN TRUE
+  IF c = base \/ ~m.found \/ ~m.m.haslang THEN TRUE
   ELSE LET eps == run.eps \/ m.m.eps
            w1 == ExplBy(lang, m.m.lang, eps, run.widened, run.asbuilt)
            \* the twin itself may be the widened one
-           w2 == ExplBy(m.m.lang, lang, eps, m.m.widened, m.m.asbuilt)
-       IN JudgeX(IF w1 # "no" THEN w1 ELSE w2, props, "twin-" \o opt)
+           w2 == IF w1 # "no" THEN w1 ELSE ExplBy(m.m.lang, lang, eps, m.m.widened, m.m.asbuilt)
+       IN JudgeX(w2, props, "twin-" \o opt)
 
 TOutPanic ==
   /\ IsEvent("out") /\ pc # "idle" /\ pc # "tcs" /\ pc # "done" /\ Ev.r = run.r
@@ -271,15 +268,13 @@ TOut ==
   /\ LET c == run.cfg
          o == Ev
          parsed == o.engine /\ o.compiles
-         hirok == parsed /\ WellFormed(o.hir) /\ AnchorsOnlyAtEnds(o.hir)
+         hirok == parsed /\ WellFormed(o.hir) /\ AnchorsOnlyAtEnds(o.hir) /\ TrimAst(o.hir)
          judged == run.judged /\ hirok
-         lang == IF judged THEN LangOf(Body(o.hir)) ELSE {}
-         unb == hirok /\ Unbounded(o.hir)
-         okPrint == ~judged \/ (~unb /\ lang = run.elang)
-         expected == IF judged THEN E(tcs, c, G) ELSE {}
-         whyExact == IF ~judged THEN "ok" ELSE IF unb THEN "no" ELSE Expl(lang, expected)
+         lang == IF hirok THEN DescAst(o.hir) ELSE Nothing
+         okPrint == ~hirok \/ Same(lang, run.elang)
+         whyExact == IF ~judged THEN "ok" ELSE Expl(lang, DescAst(ExpAst(tcs, c, G)))
          whySound == IF ~judged THEN "ok"
-                     ELSE ExplTcs({i \in DOMAIN tcs : TheWord(tcs[i]) \notin lang})
+                     ELSE ExplTcs({i \in DOMAIN tcs : ~Accepts(lang, TheWord(tcs[i]))})
          m == MemoOf(c)
      IN /\ Judge(~o.engine \/ o.compiles, {"C07"} \cup (IF EngineBound(c) THEN {"C01"} ELSE {}),
                  "invalid", IF Has(o, "msg") THEN o.msg ELSE "")
@@ -296,7 +291,7 @@ TOut ==
         \* C10: same set, same settings => same string
         /\ Judge(~m.found \/ m.m.sid = o.sid, {"C10"}, "nondeterministic", "")
         \* differential properties
-        /\ ~judged \/
+        /\ ~hirok \/
              /\ TwinLang(c, "rep", [c EXCEPT !.rep = FALSE, !.minrep = 1, !.minsub = 1], {"C05"}, lang)
              /\ TwinLang(c, "verbose", [c EXCEPT !.verbose = FALSE], {"C06"}, lang)
              /\ TwinLang(c, "capture", [c EXCEPT !.capture = FALSE], {"C06"}, lang)
@@ -310,11 +305,11 @@ TOut ==
                 THEN Judge(StripSGR(o.cps) = b.m.cps, {"C15"}, "sgr", "")
                 ELSE TRUE
            ELSE TRUE
-        /\ run' = [run EXCEPT !.out = o, !.olang = lang, !.okhir = judged,
+        /\ run' = [run EXCEPT !.out = o, !.olang = lang, !.okhir = hirok,
                               !.firstbad = FirstBad(okPrint, "print")]
         /\ memo' = IF m.found THEN memo
-                   ELSE Append(memo, [cfg |-> CfgKey(c), sid |-> o.sid, judged |-> run.judged,
-                                      haslang |-> judged, lang |-> lang, eps |-> run.eps,
+                   ELSE Append(memo, [cfg |-> CfgKey(c), sid |-> o.sid,
+                                      haslang |-> hirok, lang |-> lang, eps |-> run.eps,
                                       widened |-> run.widened, asbuilt |-> run.asbuilt,
                                       cps |-> IF Has(o, "cps") THEN o.cps ELSE <<>>])
         /\ cnt' = Bump({"out"} \cup (IF judged THEN {"judged"} ELSE {"unjudged"})
@@ -332,17 +327,23 @@ TObs ==
   /\ IsEvent("obs") /\ pc = "out" /\ Ev.r = run.r
   /\ LET c == run.cfg
          o == run.out
-         whyFull == ExplTcs({i \in DOMAIN tcs : ~Ev.full[i]})
          open == c.nostart \/ c.noend
-         whyFind == IF ~open THEN "ok"
-                    ELSE ExplTcs({i \in DOMAIN tcs : Ev.find[i] # <<0, Len(tcs[i])>>})
-         \* the model's ordered semantics must predict the engine (fidelity of Lang!Find)
-         okModel == ~run.okhir \/ \A i \in DOMAIN tcs : Find(o.hir, TheWord(tcs[i])) = Ev.find[i]
-         okAgree == ~run.okhir \/ \A i \in DOMAIN tcs : (TheWord(tcs[i]) \in run.olang) = Ev.full[i]
-     IN /\ JudgeX(whyFull, {"C01"}, "engine-full-match")
-        /\ JudgeX(whyFind, {"C08"}, "find-span")
-        /\ Judge(okModel, {"TOOL"}, "find-model-mismatch", "")
-        /\ Judge(okAgree, {"TOOL"}, "membership-model-mismatch", "")
+         Whole(i) == <<0, Len(tcs[i])>>
+         \* what the real engine observed ...
+         engFull == {i \in DOMAIN tcs : ~Ev.full[i]}
+         engFind == IF open THEN {i \in DOMAIN tcs : Ev.find[i] # Whole(i)} ELSE {}
+         \* ... and what the specification's semantics (Lang!Accepts, Lang!Find) says about the
+         \* parsed pattern.  A verdict needs BOTH to agree: a disagreement is a defect of the
+         \* engine or of the model (e.g. regex 1.10.6 returns (3,4) for "(\u{1fd3}cc|c)" on
+         \* "\u{1fd3}cc"), never of grex, and is reported as a model-fidelity note.
+         modFull == IF run.okhir THEN {i \in DOMAIN tcs : ~Accepts(run.olang, TheWord(tcs[i]))} ELSE engFull
+         modFind == IF ~open THEN {}
+                    ELSE IF run.okhir THEN {i \in DOMAIN tcs : Find(o.hir, TheWord(tcs[i])) # Whole(i)}
+                    ELSE engFind
+     IN /\ JudgeX(ExplTcs(engFull \cap modFull), {"C01"}, "engine-full-match")
+        /\ JudgeX(ExplTcs(engFind \cap modFind), {"C08"}, "find-span")
+        /\ Judge(engFind = modFind, {"TOOL"}, "find-model-mismatch", "")
+        /\ Judge(engFull = modFull, {"TOOL"}, "membership-model-mismatch", "")
         /\ cnt' = Bump({"obs"} \cup (IF open THEN {"find-open"} ELSE {}))
   /\ pc' = "done" /\ l' = l + 1
   /\ UNCHANGED <<G, tcs, run, memo>>
